@@ -2406,24 +2406,40 @@ def _conc_check(res, ops, impl, gmp, pid):
                 res.violation("oracle", "%s: " % pid + "a usage container of an accepted concurrent request is missing from the records", sc["replay"] + ["# impl: " + go[:3000]])
 
 
+def _conc_corpus(pid, cgf):
+    """regression inputs of the conc stream (corpus/<pid>/*.ops), run first on every run; files that drive the CDR transfer
+    (`conc cgf` lines) belong to the cgf scenarios"""
+    import glob
+    out = []
+    for p in sorted(glob.glob(os.path.join(core.VERIF, "corpus", pid, "*.ops"))):
+        lines = [l.strip() for l in open(p) if l.strip() and not l.startswith("#") and l.split()[0] == "conc"]
+        if any(l.startswith("conc cgf ") for l in lines) == cgf:
+            out += lines
+    return out
+
+
 def explore_c09(ctx, res, replay_ops=None):
     n = n_for(ctx, 24, 200)
-    ops = replay_ops if replay_ops is not None else core.harness_gen(ctx.harness, "conc", ctx.seed, n, ctx.tier, ())
+    ops = replay_ops if replay_ops is not None else _conc_corpus("C09", False) + core.harness_gen(ctx.harness, "conc", ctx.seed, n, ctx.tier, ())
     h = getattr(ctx, "harness_race", None) or ctx.harness
     res.extra["race_detector"] = bool(getattr(ctx, "harness_race", None))
     procs = [4, 16] if ctx.tier == "quick" else [1, 2, 4, 8, 16]
     for gmp in procs:
         impl = core.harness_run(h, "conc", ops, env_extra={"GOMAXPROCS": str(gmp), "GORACE": "halt_on_error=0"})
-        _race_scan(res, "C09", ops, gmp, "batches and loops of concurrent requests")
+        # (after a batch that did not return, the requests left behind run next to whatever the harness does next: a deadlock is
+        #  reported as such, not as the races that follow from it)
+        if not any(x.startswith("done=0") for x in impl):
+            _race_scan(res, "C09", ops, gmp, "batches and loops of concurrent requests")
         _conc_extra(res, ops, impl, "C09")
         _hammer_check(res, ops, impl, "C09")
         _conc_check(res, ops, impl, gmp, "C09")
     # CDR transfer to the billing domain enabled (cgf): requests while the FTP control connection is up, after the billing domain dropped
-    # it, while it is unreachable - one request at a time under the batch deadline; on the build without the race detector
+    # it, while it is unreachable - one at a time, then several subscribers' requests in flight together (race-detector build)
     if replay_ops is None:
-        cops = core.harness_gen(ctx.harness, "conc", ctx.seed, 0, ctx.tier, ("-mode", "cgf"))
-        cimpl = core.harness_run(ctx.harness, "conc", cops, env_extra={"GOMAXPROCS": "4"})
-        _race_scan(res, "C09", cops, 4, "CDR transfer to the billing domain enabled")
+        cops = _conc_corpus("C09", True) + core.harness_gen(ctx.harness, "conc", ctx.seed, 0, ctx.tier, ("-mode", "cgf"))
+        cimpl = core.harness_run(h, "conc", cops, env_extra={"GOMAXPROCS": "4", "GORACE": "halt_on_error=0"})
+        if not any(x.startswith("done=0") for x in cimpl):
+            _race_scan(res, "C09", cops, 4, "CDR transfer to the billing domain enabled")
         for op, im in zip(cops, cimpl):
             if op.startswith("conc cgf ") and not im.startswith("ok"):
                 res.violation("oracle", "C09: the CDR-transfer scenario could not be set up (%s)" % im, [op, "# impl: " + im], found_input=False)
@@ -2437,7 +2453,7 @@ def explore_c09(ctx, res, replay_ops=None):
                 "response and the quiescent state exactly (record numbering compared up to order); every session acknowledged in the batch "
                 "is then updated and released; for larger batches: exactly-once recording of the accepted containers; batches with one-time events; loops "
                 "(hammer) of one-time events / refused creates / unknown-reference requests next to creates, updates and releases of one subscriber; "
-                "CDR transfer to the billing domain enabled (FTP responder up / dropped / unreachable), one request at a time" % procs)
+                "CDR transfer to the billing domain enabled (FTP responder up / dropped / unreachable), one request at a time and 3-5 subscribers' creates together" % procs)
 
 
 PROPS["C09"] = dict(lean=["ChfVerif.Props.C09"], explore=explore_c09, race=True, gen=[gen_table("locksites", "LockSites.lean")],
